@@ -126,6 +126,9 @@ NEUTRAL = [
     ('symm-pad-memoised-correctly', ['C03', 'C11', 'C15'], [(UT, "def symm_pad_1d(l, m):", "@functools.lru_cache(maxsize=None)\ndef symm_pad_1d(l, m):")]),
     ('scat-square-by-product', ['C08', 'C09'], [(SL, "            r = torch.sqrt(reals**2 + imags**2 + bias**2)\n\n        if x.requires_grad:\n            drdx = reals/r\n            drdy = imags/r\n            ctx.save_for_backward(h0o, h1o, drdx, drdy)",
                                                     "            r = torch.sqrt(reals*reals + imags*imags + bias*bias)\n\n        if x.requires_grad:\n            drdx = reals/r\n            drdy = imags/r\n            ctx.save_for_backward(h0o, h1o, drdx, drdy)")]),
+    ('scat-functional-spellings', ['C08', 'C09', 'C16'], [(SL, "            r = torch.sqrt(reals**2 + imags**2 + bias**2)\n\n        if x.requires_grad:\n            drdx = reals/r\n            drdy = imags/r\n            ctx.save_for_backward(h0o, h1o, drdx, drdy)",
+                                                         "            r = torch.sqrt(torch.add(torch.square(reals), imags.square()) + bias**2)\n\n        if x.requires_grad:\n            rinv = r.reciprocal()\n            drdx = torch.mul(reals, rinv)\n            drdy = imags.mul(rinv)\n            ctx.save_for_backward(h0o, h1o, drdx, drdy)")]),
+    ('q2c-functional-arithmetic', ['C03', 'C06', 'C12'], [(DL, "    y = y/np.sqrt(2)\n    a, b = y[:,:, 0::2, 0::2]", "    y = torch.div(y, np.sqrt(2))\n    a, b = y[:,:, 0::2, 0::2]")]),
     ('afb2d-backward-crop-as-two-ifs', ['C05'], [(LL, "            if dx.shape[-2] > ctx.shape[-2] and dx.shape[-1] > ctx.shape[-1]:\n                dx = dx[:,:,:ctx.shape[-2], :ctx.shape[-1]]\n            elif dx.shape[-2] > ctx.shape[-2]:\n                dx = dx[:,:,:ctx.shape[-2]]\n            elif dx.shape[-1] > ctx.shape[-1]:\n                dx = dx[:,:,:,:ctx.shape[-1]]",
                                                      "            if dx.shape[-2] > ctx.shape[-2]:\n                dx = dx[:,:,:ctx.shape[-2]]\n            if dx.shape[-1] > ctx.shape[-1]:\n                dx = dx[:,:,:,:ctx.shape[-1]]")]),
     ('skip-list-by-comprehension', ['C12', 'C03'], [(D2, "        highs = [x.new_zeros([]),] * self.J\n", "        highs = [x.new_zeros([]) for _ in range(self.J)]\n")]),
